@@ -202,10 +202,12 @@ inductive BaseArg (α : Type) where
   | srid (n : Nat)
 
 /-- error kinds: `exit` = the code printed an error and called `exit()`; `attr` = AttributeError
-(an `int` base reached `.toECEFCoords()`); `index` = IndexError (`getSRID` of an empty track);
-`unmodelled` = the UTM inverse (`_projFromUTM`), outside this model -/
+(an `int` or `None` base reached `.toECEFCoords()`, or the class has no such method); `type` = TypeError (a method
+called with the wrong number of arguments, e.g. `ENUCoords.toECEFCoords()` reached through an `ENUCoords` base);
+`index` = IndexError (`getSRID` of an empty track); `unmodelled` = the UTM inverse (`_projFromUTM`), outside this
+model; `dangling` = not a Python situation: a request of the driver names an object that does not exist -/
 inductive Err where
-  | exit | attr | index | unmodelled
+  | exit | attr | type | index | unmodelled | dangling
   deriving DecidableEq
 
 /-- `_proj(coords, srid)` -/
